@@ -67,7 +67,8 @@ def prng_lint_ob(prog):
 
 def obligations(tier):
     prog = model.load()
-    obs = [prng_lint_ob(prog)]
+    from .common import no_narrowing_ob
+    obs = [prng_lint_ob(prog), no_narrowing_ob(prog, "dtype")]
     for cls in ("GaussianPDF", "GaussianDiagPDF"):
         for r1 in (False, True):
             obs.append(sample_ob(cls, r1))
